@@ -240,8 +240,11 @@ def run(ctx):
             e = strip_casts(x[0])
             if e.k == "CallExpr" and e.name in ("strcmp", "strncmp", "strcasecmp", "memcmp"):
                 how.append(e.name)
-                if e.name == "strcmp" and x[1] is False and any(unparse(strip_casts(a)) == NM for a in e.args()) and \
-                        any(unparse(strip_casts(a)).endswith(".prefix") or unparse(strip_casts(a)).endswith("->prefix") for a in e.args()):
+                whole = e.name == "strcmp" or (e.name == "strncmp" and len(e.args()) > 2 and strip_casts(e.args()[2]).v == plen[0] - 1)
+                # strncmp over the whole field (its length minus the terminator) is as exact as the stored key allows: names up to that
+                # length are compared completely (the stored prefix is NUL-terminated inside the field), longer ones by what was kept
+                if whole and x[1] is False and any(unparse(strip_casts(a)) == NM for a in e.args()[:2]) and \
+                        any(unparse(strip_casts(a)).endswith(".prefix") or unparse(strip_casts(a)).endswith("->prefix") for a in e.args()[:2]):
                     exact = True
         rep.check(exact, "D6-PREFIX-CAPACITY", where(sg), "lookup-is-exact",
                   "a set is returned only when strcmp (prefix, name) == 0",
@@ -287,7 +290,9 @@ def run(ctx):
             bad = [x for x in lookups if not names_ok(f, x.args()[1])]
             indexed = [x for x in f.walk() if x.k == "ArraySubscriptExpr" and (access_path(x.c[0]) or "").endswith("->opcodes") and strip_casts(x.c[1]).v is None
                        and not lookups]
-            serialiser = f.name.startswith("orc_bytecode_") or f.name.startswith("orc_parse_")
+            # the bytecode format can only number opcodes of the built-in table (format limitation, C13); a TEXT program names its
+            # opcodes, so the parser has no such excuse
+            serialiser = f.name.startswith("orc_bytecode_")
             ok = not bad and (bool(lookups) or serialiser)
             rep.check(ok, "D3-DISPATCH", where(f), "uses-sys-set",
                       "\"sys\" lookups in %s concern built-in opcode names only (%d lookups)" % (f.name, len(lookups)),
@@ -304,6 +309,7 @@ def run(ctx):
     d7_no_cached_interior_pointer(db, rep)
     d8_every_insn_dispatched(db, rep)
     d9_all_operand_slots(db, rep)
+    d10_set_key_agrees(db, rep)
 
     # ---- D4 ------------------------------------------------------------------
     fn = db.func("orc_opcode_find_by_name", "orcopcode")
@@ -593,4 +599,48 @@ def d9_all_operand_slots(db, rep, rule="D9-ALL-OPERAND-SLOTS", only=None):
                       line=lp.line)
     if n < 20:
         raise AnalysisBroken("only %d loops over the operand slot arrays found" % n)
+    return n
+
+
+def d10_set_key_agrees(db, rep, rule="D10-SET-KEY-AGREES"):
+    """D10: an opcode set is found again under the prefix it was registered with.  orc_opcode_register_static stores the
+    prefix with a bounded copy (the field is a small char array); a lookup that compares the caller's full name against the
+    stored, possibly cut, prefix with an unbounded strcmp can never find a set registered under a longer name, and the NULL
+    goes straight into orc_rule_set_new.  Where the store is bounded by K characters every comparison against that field must
+    be bounded by at most K (or the registration must refuse longer names)."""
+    tu = db.tu("orcopcode")
+    reg = tu.fn.get("orc_opcode_register_static")
+    if reg is None:
+        raise AnalysisBroken("orc_opcode_register_static not found")
+    rep.saw(reg)
+    fld = db.field("OrcOpcodeSet", "prefix")
+    cap = fld["size"] if fld else None
+    stores = [c for c in reg.calls() if (c.name or "").replace("__builtin___", "").replace("_chk", "") in ("strncpy", "strcpy", "snprintf", "memcpy", "strlcpy")
+              and c.args() and (access_path(strip_casts(c.args()[0])) or "").endswith(".prefix")]
+    if not stores or cap is None:
+        raise AnalysisBroken("the store of the set prefix in orc_opcode_register_static was not found")
+    st = stores[0]
+    nm = (st.name or "").replace("__builtin___", "").replace("_chk", "")
+    bounded = nm in ("strncpy", "snprintf", "memcpy", "strlcpy")
+    kept = cap - 1
+    refuses = any(x.k == "CallExpr" and x.name == "strlen" for x in reg.walk()) and any(r.k == "ReturnStmt" for r in reg.walk() if reg.dominates(r, st) is False and r.line < st.line)
+    n = 0
+    for f in tu.main_functions():
+        for c in f.calls():
+            cn = (c.name or "").replace("__builtin_", "")
+            if cn not in ("strcmp", "strncmp", "memcmp", "strcasecmp"):
+                continue
+            if not any((access_path(strip_casts(a)) or "").endswith(".prefix") for a in c.args()[:2]):
+                continue
+            n += 1
+            rep.saw(f)
+            lim = strip_casts(c.args()[2]).v if cn in ("strncmp", "memcmp") and len(c.args()) > 2 else None
+            ok = (not bounded) or refuses or (lim is not None and lim <= kept)
+            rep.check(ok, rule, where(f), "%s:%s" % (f.name, cn),
+                      "the lookup compares at most the %d characters registration keeps" % kept,
+                      "%s compares the whole name with the stored prefix (%s), but orc_opcode_register_static keeps only the first %d characters (%s into a "
+                      "%d-byte field): a set registered as \"extension\" is stored as \"extensi\" and orc_opcode_set_get (\"extension\") returns NULL, which "
+                      "orc_rule_set_new dereferences" % (f.name, cn, kept, nm, cap), line=c.line)
+    if n < 1:
+        raise AnalysisBroken("no comparison against OrcOpcodeSet.prefix found")
     return n
